@@ -535,14 +535,17 @@ def selftest():
         bad.append('generator order')
     if gmul(1, 12345) != cmul(F1, 12345, P1) or gmul(2, r - 3) != cmul(F2, r - 3, P2):
         bad.append('fixed-base table')
-    # standard vector: e(P1, [ks]P2), first limb of its serialisation and of its r-th power (repository tests / README)
-    ks = 0x000130E78459D78545CB54C587E02CF480CE0B66340F319F348A1D5B1F2DC5F4
+    # the three published vectors present in the repository's own tests, every limb
+    from . import kat
+    ks = kat.KS
     g = pairing(P1, g2(ks))
-    if g[0] != 0xAAB9F06A4EEBA4323A7833DB202E4E35639D93FA3305AF73F0F071D7D284FCFB:
-        bad.append('standard vector e(P1,Ppub) w^0 limb')
-    rr = 0x00033C8616B06704813203DFD00965022ED15975C662337AED648835DC4B1CBE
-    if ser12(fpow(g, rr))[:32].hex().upper() != '81377B8FDBC2839B4FA2D0E0F8AA6853BBBE9E9C4099608F8612C6078ACD7563':
-        bad.append('standard vector g^r')
+    if any(g[e] != v for e, v in kat.V1_LIMBS.items()):
+        bad.append('standard vector e(P1, [ks]P2)')
+    if ser12(fpow(g, kat.RR)).hex().upper() != kat.V3_GPOWR:
+        bad.append('standard vector e(P1, [ks]P2)^r')
+    g_v2 = pairing(kat.V2_P, kat.V2_Q)
+    if any(g_v2[e] != v for e, v in kat.V2_LIMBS.items()):
+        bad.append('standard vector e(RA, deB)')
     if list(gt_pow_base(ks)) != g:
         bad.append('bilinearity of the model')
     if fpow(g, r) != ONE or list(gbase()) == ONE:
